@@ -6,6 +6,7 @@ import SplinkVerif.Drv.Arith
 import SplinkVerif.Drv.BlockingAnalysis
 import SplinkVerif.Drv.EM
 import SplinkVerif.Drv.Estimators
+import SplinkVerif.Drv.Cache
 import SplinkVerif.Drv.GraphMetrics
 /-! Line-protocol driver: one JSON object per input line, one JSON object per output line. -/
 open Lean SplinkVerif.Drv
@@ -23,6 +24,7 @@ def dispatch (j : Json) : Except String Json := do
   | "em_run" => handleEMRun j
   | "em_misc" => handleEMMisc j
   | "estim" => handleEstim j
+  | "cache_trace" => handleCacheTrace j
   | "graphmetrics" => handleGraphMetrics j
   | "ping" => pure (Json.mkObj [("pong", Json.bool true)])
   | _ => throw s!"unknown op {op}"
